@@ -95,6 +95,18 @@ func runQuota(c *Ctx, idx int, champions bool) {
 		sc.Opts.CompatThreshold = pick(r, 0.6, 1.0, 2.0, 3.0)
 		sc.Epochs = 40 + r.Intn(20)
 	}
+	if champions && idx%8 == 7 {
+		sc.Fitness = fitFewRisers
+		// (delta coding wipes the rising species five epochs after the leaders began to die; babies are stolen only from species
+		// older than five epochs: a drop-off age of five and more gives the whole window)
+		sc.Opts.DropOffAge = 5 + r.Intn(3)
+		sc.Opts.CompatThreshold = pick(r, 2.0, 3.0, 5.0) // few species, so that they hold quotas worth stealing
+		if sc.Opts.PopSize < 50 {
+			sc.Opts.PopSize = pick(r, 50, 80)
+		}
+		sc.Opts.BabiesStolen = pick(r, sc.Opts.PopSize/2, sc.Opts.PopSize/3, 2*sc.Opts.PopSize/3)
+		sc.Epochs = 40 + r.Intn(20)
+	}
 	if champions && idx%5 == 1 {
 		// weights far beyond the usual range (a long run, a strong mutation power): the champion is copied all the same
 		sc.Opts.WeightMutPower = pick(r, 60.0, 400.0)
